@@ -258,6 +258,12 @@ def discharge(ctx: Ctx, ob: Obligation, use_cvc5_always=False, cheap=False) -> d
             rec["model"] = extract_model(ctx, s.model(), ob.inputs)
         except Exception as e:  # pylint: disable=broad-except
             rec["model_error"] = repr(e)
+        if ob.replay is not None and not cheap and "model" in rec:
+            # further models (non-empty sequences first) in case the first one is degenerate for the native replay
+            try:
+                rec["candidates"] = [rec["model"]] + candidate_models(ctx, ob, 6)
+            except Exception as e:  # pylint: disable=broad-except
+                rec["model_error"] = repr(e)
     elif verdict in ("unknown", "sat") and ob.replay is not None and not cheap:
         # quantified hypotheses keep z3 from confirming satisfiability.  Look for *candidate* counterexamples in a
         # bounded relaxation (index quantifiers instantiated for 0..2, list lengths <= 3, other quantifiers dropped).
@@ -366,7 +372,8 @@ def candidate_models(ctx: Ctx, ob: Obligation, n: int):
     hints = list(ob.hints)
     if lens:
         hints.append(z3.And(*[l >= 1 for l in lens]))
-        hints.append(z3.And(*[l >= 2 for l in lens]))
+        for l in lens[:8]:
+            hints.append(l >= 2)
     for h in hints:
         g.push()
         g.add(h)
